@@ -23,7 +23,7 @@
    them into an alternation (positive) / a sequence (negative) of look-behinds, and the reference
    semantics reads them the same way (Oniguruma's reading). *)
 From FR Require Import Base State Utf8 Utf8Facts Chars Ast Analyze Sem SemSound SemK Det Vm Compile
-                       Machine Param Atomize ArrowA CompileCorrect RunCorrect EndToEnd Scope ScopeProofs Parse ParseInv FromPattern.
+                       Machine Param Atomize ArrowA CompileCorrect RunCorrect EndToEnd Scope ScopeProofs Parse ParseInv ParseIdx FromPattern.
 From Coq Require Import NArith Lia.
 
 (* Whatever the stack bound, the backtrack limit and the step budget: the VM reports a match only
@@ -179,6 +179,28 @@ Theorem C01_from_ascii_pattern_string :
   end.
 Proof. exact ascii_pattern_vm_follows_reference. Qed.
 
+
+(* THE STATEMENT FROM THE PATTERN STRING, for every pattern that is valid UTF-8 (what a Rust &str
+   is): parse, analyse, compile, run.  Hypotheses: the pattern parses, it compiles to a VM program,
+   and no conditional sits under an atomic cut (F-condleak, where the statement is false).  The
+   parser theorems (Proofs/ParseInv.v, ParseIdx.v) supply everything else about the tree. *)
+Theorem C01_from_utf8_pattern_string :
+  forall (re : list nat), valid_text re ->
+  forall (e : expr) (st : pst), parse re = POk (e, st) ->
+  condok true e ->
+  forall (p : prog) (n : nat), regex_new (bs_of st) e = inr (RFancy p n) ->
+  forall cs : list (list nat), valid_chars cs ->
+  forall cx : ctx, c_text cx = concat cs -> (N.of_nat (length (concat cs)) < usize_max)%N ->
+  bnd cs (c_pos cx) ->
+  forall (max_st : nat) (lim : option N) (fuelv : nat),
+  match fst (vm_run cx p max_st lim fuelv) with
+  | RMatch sv => search_list cx e (S (length (c_text cx))) = Some (firstn (2 * S (ngroups e)) sv)
+  | RNoMatch => search_list cx e (S (length (c_text cx))) = None
+  | RPanic => False
+  | _ => True
+  end.
+Proof. exact utf8_pattern_vm_follows_reference. Qed.
+
 (* what the parser guarantees, for every byte string *)
 Theorem C01_parser_invariants : forall re e st, parse re = POk (e, st) ->
   refs_ok True (fun g => bs_of st g = true) e /\ zok e /\ lbz e.
@@ -275,5 +297,6 @@ Print Assumptions C01_in_scope.
 Print Assumptions C01_in_scope_all.
 Print Assumptions C01_from_pattern_string.
 Print Assumptions C01_from_ascii_pattern_string.
+Print Assumptions C01_from_utf8_pattern_string.
 Print Assumptions C01_parser_invariants.
 Print Assumptions C01_vm_implements_atomized.
